@@ -5,7 +5,7 @@
 
   Run A = `simulate m { p with absence := L } s`, run B = `simulate m { p with absence := [] } s`.
 
-  What is proved here (all against the model as it is now):
+  What is proved here:
 
   * Stage 1 — shift invariance.  `C10_est_shift`: the forward PERT pass started `d` steps later on
     the same remaining work gives every `est` exactly `d` later (any link kinds, any graph with
@@ -17,35 +17,26 @@
     row of one more step is, at a working step, `removeLogs` of the old logs with the same row
     appended, and at an absence step just `removeLogs` of the old logs.
   * Stage 2 — one step.  `C10_working_step`: a working step of both runs preserves the simulation
-    relation `Removal.Rel` (task states of A *ahead* of B only on component-free automatic tasks,
-    remaining work / allocations / assignments / components / placement equal, clocks `d` apart,
-    B's logs = A's logs minus the `d` absence rows).  `C10_absence_step_current`: an absence step
-    of run A leads to the relation with the *same* state of run B.
+    relation `Removal.Rel` (task states, remaining work / allocations / assignments / components /
+    placement equal after `__update`, clocks `d` apart, B's logs = A's logs minus the `d` absence
+    rows).  `C10_absence_step_current`: with the flag off an absence step of run A leads to the
+    relation with the *same* state of run B — at such a step neither `allocate` nor
+    `check_state(WORKING)` nor `perform` runs, every resource in range becomes ABSENCE and nothing
+    else changes; the next `__update` finds nothing to do but the PERT data.
   * Stage 4 — the runs.  `C10_removal_of_absence_step`: the final statement from the absence-step
-    lemma taken as a hypothesis (`Removal.AbsStepOK`) — nothing else in it depends on what
-    `check_state(WORKING)` does at an absence step.  `C10_removal_partial`: the final statement
-    for the current model.
+    lemma taken as a hypothesis (`Removal.AbsStepOK`).  `C10_removal`: the final statement.
 
-  The statement as asked for (only FIFO and zero-work automatic tasks excluded) is FALSE in the
-  current model; see `C10_removal_counterexample_ss` below.  Hypotheses of `C10_removal_partial`
-  beyond the ones in the property text:
-    - `NoStartLink m`: no SS / SF link leaves an automatic task (new finding, below);
+  Hypotheses of `C10_removal` beyond the ones in the property text:
     - TSLACK only inside `SlackOK m` (FS links only, consistent link lists, acyclic): outside it
       the backward pass tests `lft < 0` for "not yet set", which is not shift invariant unless
       every value it stores is ≥ 0 — not proved for mixed link kinds (no counterexample known);
-    - `CompNoAuto m` (no component lists an automatic task) besides `AutoFree m` (no automatic
-      task names a component): the model does not tie the two lists together;
-    - `WF m`, `FacsInRange m`, `WorkOK m`: index / sign well-formedness;
+    - `CompNoAuto m` (no component lists an automatic task): the form in which "no
+      component-bound automatic task" is used;
+    - `WF m`, `WorkOK m`: index / sign well-formedness;
     - run A ends with SUCCESS (then run B does too: proved, not assumed).
-
-  Lemmas that depend on `check_state(WORKING)` running at project absence steps (to be redone
-  after the announced repair of `stepBody`): everything in `PDesy/Lemmas/Removal.lean` from the
-  heading "an absence step of run A" on and from "The absence step in the current model" on
-  (`startOne_quiet`, `foldl_startOne_quiet`, `chkWorking_tstate_quiet`, `compCheck_quiet`,
-  `UpdFix`, `NoStartLink`, `readyGate_startAuto`, `finishGate_startAuto`, `AutoPos`, `upd0_quiet`,
-  `stepLive_absence`, `LRel_absence`, `JA`, `rel_absence`, `removal_current`) and here
-  `C10_absence_step_current`, `C10_removal_partial`.  `Removal.stepBody_live_eq` and
-  `Removal.stepBody_logs_eq` are `rfl` against the present `stepBody` and need re-checking.
+  No longer needed (they were, while `check_state(WORKING)` ran at project absence steps): no
+  SS / SF link out of an automatic task (`ssM` below is now a positive example), positive work of
+  automatic tasks (`zwM` below), `AutoFree`, `FacsInRange`, and any further invariant of run A.
 -/
 import PDesy.Lemmas.Removal
 import PDesy.Model.Ser
@@ -106,7 +97,8 @@ theorem C10_rows_dropped (m : Model) (wk : Bool) (l4 l5 : Live) (s : St) (h : Al
 /-- the rows in question are the ones `stepBody` appends -/
 example (m : Model) (p : Params) (s : St) :
     (stepBody m p s).logs = addRow m (!(p.absence.contains s.time))
-      (preLive m s.logs p.rule s.time (!(p.absence.contains s.time)) s.live) (stepBody m p s).live s.logs :=
+      (preLive m s.logs p.rule p.autoFlag s.time (!(p.absence.contains s.time)) s.live)
+      (stepBody m p s).live s.logs :=
   stepBody_logs_eq m p s
 
 /-! ### Stage 2: one step -/
@@ -123,16 +115,21 @@ theorem C10_working_step (m : Model) (pA pB : Params) (hm : ModelOK m pA.rule)
     Rel m pA.absence (stepBody m pA (updated m a0)) (stepBody m pB (updated m b0)) :=
   rel_working m pA pB hm hrule haf hB a0 b0 h hw
 
-/-- **C10.3, an absence step, current model.**  With the flag off, no automatic task with a
-component, positive initial work of automatic tasks, no SS/SF link out of an automatic task and
-facility lists in range: an absence step of run A leads to the relation with the *same* state of
-run B (`d` grows by one).  `Removal.JA` is the invariant of run A it uses (allocation invariants,
-nothing allocated out of range, READY automatic tasks have work left). -/
-theorem C10_absence_step_current (m : Model) (pA : Params) (hm : ModelOK m pA.rule) (hA : ModelOKA m)
-    (hflag : pA.autoFlag = false) (a0 b0 : St) (h : Rel m pA.absence a0 b0) (hj : JA m a0)
-    (hc : pA.absence.contains a0.time = true) :
+/-- **C10.3, an absence step.**  With `perform_auto_task_while_absence_time` off, an absence
+step of run A leads to the relation with the *same* state of run B (`d` grows by one): the step
+changes no task state, no remaining work and no allocation — only the resource states in range,
+which the next step recomputes —, the `__update` after it changes nothing but the PERT data, and
+the rows it appends are the ones `remove_absence_time_list` deletes (`C10_rows_dropped`).  No
+condition on the model and no further invariant of run A is needed. -/
+theorem C10_absence_step_current (m : Model) (pA : Params) (hflag : pA.autoFlag = false)
+    (a0 b0 : St) (h : Rel m pA.absence a0 b0) (hc : pA.absence.contains a0.time = true) :
     Rel m pA.absence (stepBody m pA (updated m a0)) b0 :=
-  rel_absence m pA hm hA hflag a0 b0 h hj hc
+  rel_absence m pA hflag a0 b0 h trivial hc
+
+/-- the same as the hypothesis `AbsStepOK` of `C10_removal_of_absence_step` -/
+theorem C10_absStepOK (m : Model) (pA : Params) (hflag : pA.autoFlag = false) :
+    AbsStepOK m pA (fun _ => True) :=
+  rel_absence m pA hflag
 
 /-! ### Stage 4: the runs -/
 
@@ -155,23 +152,15 @@ theorem C10_removal_of_absence_step (m : Model) (p : Params) (L : List Nat) (s :
     (simulate m { p with absence := [] } s).status = .success :=
   removal_of_absStep m p L s hm hw hs hl J hJ0 hJ habs hsucc
 
-/- The statement asked for,
-
-     C10_removal : (no individual absences) → (no automatic task with a component) →
-       (automatic tasks have positive initial remaining work) → p.rule ≠ .fifo →
-       p.autoFlag = false → p.initState = true → p.initLog = true → (both runs end with SUCCESS) →
-       (removeAbs m (simulate m { p with absence := L } s)).logs
-         = (simulate m { p with absence := [] } s).logs        (and the same for `time`, `status`)
-
-   is FALSE in the current model: `C10_removal_counterexample_ss` below satisfies every one of
-   these hypotheses.  `C10_removal_partial` is the variant with the extra hypotheses made explicit. -/
-
-/-- **C10.3, current model** (`_partial`: see the header for the hypotheses added to the property
-text).  For every absence list `L`: if the run with absence list `L` ends with SUCCESS, then
-deleting the project-wide absence steps from its result gives the logs, the clock and the status
-of the run without absence, which ends with SUCCESS as well. -/
-theorem C10_removal_partial (m : Model) (p : Params) (L : List Nat) (s : St)
-    (hm : ModelOK m p.rule) (hA : ModelOKA m) (hw : WorkOK m) (hs : p.initState = true)
+/-- **C10.3.**  For a model without individual absences and without automatic tasks in
+components (`ModelOK`: also in-range links, rule ≠ FIFO, TSLACK only on finish-to-start
+networks), with `perform_auto_task_while_absence_time` off and both `initialize` flags set, and
+for every absence list `L` (empty, runs, duplicates, steps beyond the end): if the run with
+absence list `L` ends with SUCCESS, then deleting the project-wide absence steps from its result
+(`remove_absence_time_list`) gives exactly the logs, the clock and the status of the run without
+absence, which ends with SUCCESS as well. -/
+theorem C10_removal (m : Model) (p : Params) (L : List Nat) (s : St)
+    (hm : ModelOK m p.rule) (hw : WorkOK m) (hs : p.initState = true)
     (hl : p.initLog = true) (hflag : p.autoFlag = false)
     (hsucc : (simulate m { p with absence := L } s).status = .success) :
     (removeAbs m (simulate m { p with absence := L } s)).logs = (simulate m { p with absence := [] } s).logs ∧
@@ -179,7 +168,8 @@ theorem C10_removal_partial (m : Model) (p : Params) (L : List Nat) (s : St)
     (removeAbs m (simulate m { p with absence := L } s)).status =
       (simulate m { p with absence := [] } s).status ∧
     (simulate m { p with absence := [] } s).status = .success :=
-  removal_current m p L s hm hA hw hs hl hflag hsucc
+  C10_removal_of_absence_step m p L s hm hw hs hl (fun _ => True) trivial (fun _ _ => trivial)
+    (C10_absStepOK m { p with absence := L } hflag) hsucc
 
 /-! ### the hypotheses are satisfiable; both sides evaluated -/
 
@@ -224,18 +214,6 @@ theorem rmM_ok (rule : TaskRule) (h : rule ≠ .fifo) : ModelOK rmM rule where
   notFifo := h
   slack := fun _ => rmM_slackOK
 
-theorem rmM_okA : ModelOKA rmM where
-  autoFree := fun t ht _ => by
-    rcases rmM_cases ht with rfl | rfl | rfl | rfl <;> rfl
-  noStart := by
-    intro t ht e he hd
-    rcases rmM_cases ht with rfl | rfl | rfl | rfl <;> simp [rmM] at he <;>
-      (try rcases he with rfl | rfl) <;> (try subst he) <;> simp at hd
-  facs := fun p f hf => by simp [rmM] at hf
-  autoPos := by
-    intro t ht ha
-    rcases rmM_cases ht with rfl | rfl | rfl | rfl <;> first | (exact absurd ha (by decide)) | decide +kernel
-
 theorem rmM_workOK : WorkOK rmM := by
   intro t ht
   rcases rmM_cases ht with rfl | rfl | rfl | rfl <;> decide +kernel
@@ -249,11 +227,11 @@ example : (simulate rmM { absence := rmL, maxTime := 40 } St.fresh).status = .su
     (simulate rmM { absence := rmL, maxTime := 40 } St.fresh).time = 7 ∧
     (simulate rmM { absence := [], maxTime := 40 } St.fresh).time = 5 := by decide +kernel
 
-/-- `C10_removal_partial` applies to the example (default rule TSLACK) … -/
+/-- `C10_removal` applies to the example (default rule TSLACK) … -/
 example :
     (removeAbs rmM (simulate rmM { absence := rmL, maxTime := 40 } St.fresh)).logs =
       (simulate rmM { absence := [], maxTime := 40 } St.fresh).logs :=
-  (C10_removal_partial rmM { maxTime := 40 } rmL St.fresh (rmM_ok .tslack (by decide)) rmM_okA rmM_workOK
+  (C10_removal rmM { maxTime := 40 } rmL St.fresh (rmM_ok .tslack (by decide)) rmM_workOK
     rfl rfl rfl (by decide +kernel)).1
 
 /-- … and, independently of the theorem, both sides evaluated (logs serialised, clock, status),
@@ -267,15 +245,16 @@ example : ∀ rule ∈ [TaskRule.tslack, .est, .spt, .lpt, .lrpt, .srpt, .lwrpt,
       (simulate rmM { rule := rule, absence := [], maxTime := 40 } St.fresh).status := by
   decide +kernel
 
-/-- the removal is not trivial: before it the state log of the automatic task shows READY at the
-two absence steps (it is WORKING there, shown READY), afterwards these rows are gone -/
+/-- the removal is not trivial: before it the state log of the automatic task shows NONE at the
+absence step 1 and READY at the absence step 3 (it becomes READY there and is not started: it
+starts at step 4), afterwards these rows are gone -/
 example :
     (simulate rmM { absence := rmL, maxTime := 40 } St.fresh).logs.tState 1 =
       [.none, .none, .none, .ready, .working, .working, .finished] ∧
     (removeAbs rmM (simulate rmM { absence := rmL, maxTime := 40 } St.fresh)).logs.tState 1 =
       [.none, .none, .working, .working, .finished] := by decide +kernel
 
-/-! ### the new exception: an SS / SF link out of an automatic task -/
+/-! ### two former exceptions that are now positive examples -/
 
 /-- task `0` automatic (work 2, no component), task `1` ordinary with a start-to-start link from
 `0`; one worker -/
@@ -296,27 +275,110 @@ def ssM : Model where
   wp := fun _ => {}
   comp := fun _ => {}
 
-/-- **Counterexample to the statement as asked for** (rule TSLACK ≠ FIFO, flag off, no
-individual absence, no component, automatic task with positive work, both runs SUCCESS):
-with the absence list `[0]` the automatic task `0` is switched to WORKING by
-`check_state(WORKING)` at the absence step 0, so its SS successor `1` is READY one working step
-early; after deleting step 0 the state log of task 1 is `[WORKING, FINISHED]`, in the run without
-absence it is `[NONE, WORKING]`.  (The two runs even take the same number of steps.) -/
-theorem C10_removal_counterexample_ss :
+/-- **An SS link out of an automatic task** (formerly `C10_removal_counterexample_ss`: while
+`check_state(WORKING)` ran at absence steps, the automatic task `0` was switched to WORKING at
+the absence step 0 and its SS successor `1` became READY one working step early).  Now nothing
+starts at the absence step 0: after deleting it the logs, the clock and the status are those of
+the run without absence; the state log of task 1 is `[NONE, WORKING]` on both sides. -/
+example :
     (simulate ssM { absence := [0], maxTime := 20 } St.fresh).status = .success ∧
     (simulate ssM { absence := [], maxTime := 20 } St.fresh).status = .success ∧
+    (simulate ssM { absence := [0], maxTime := 20 } St.fresh).logs.tState 1 = [.none, .none, .working] ∧
     (removeAbs ssM (simulate ssM { absence := [0], maxTime := 20 } St.fresh)).logs.tState 1 =
-      [.working, .finished] ∧
+      [.none, .working] ∧
     (simulate ssM { absence := [], maxTime := 20 } St.fresh).logs.tState 1 = [.none, .working] ∧
-    putSt ssM (removeAbs ssM (simulate ssM { absence := [0], maxTime := 20 } St.fresh)) ≠
-      putSt ssM (simulate ssM { absence := [], maxTime := 20 } St.fresh) := by
+    putLogs ssM (removeAbs ssM (simulate ssM { absence := [0], maxTime := 20 } St.fresh)).logs =
+      putLogs ssM (simulate ssM { absence := [], maxTime := 20 } St.fresh).logs ∧
+    (removeAbs ssM (simulate ssM { absence := [0], maxTime := 20 } St.fresh)).time =
+      (simulate ssM { absence := [], maxTime := 20 } St.fresh).time ∧
+    (removeAbs ssM (simulate ssM { absence := [0], maxTime := 20 } St.fresh)).status =
+      (simulate ssM { absence := [], maxTime := 20 } St.fresh).status := by
   decide +kernel
 
-/-- it violates `NoStartLink` only -/
-example : ¬ NoStartLink ssM := by
-  intro h
-  have := h 1 (by decide) (0, .ss) (by simp [ssM]) (Or.inl rfl)
-  simp [ssM] at this
+theorem ssM_ok : ModelOK ssM .est where
+  noInd := ⟨fun _ _ => rfl, fun _ _ => rfl⟩
+  compNoAuto := fun c t ht => by simp [ssM] at ht
+  wf := by
+    intro t ht
+    have : t = 0 ∨ t = 1 := by simp only [ssM] at ht; omega
+    rcases this with rfl | rfl <;> decide +kernel
+  notFifo := by decide
+  slack := fun h => by cases h
+
+theorem ssM_workOK : WorkOK ssM := by
+  intro t ht
+  have : t = 0 ∨ t = 1 := by simp only [ssM] at ht; omega
+  rcases this with rfl | rfl <;> decide +kernel
+
+/-- `C10_removal` applies to it (rule EST: the network is not finish-to-start, so TSLACK is
+outside `SlackOK`) -/
+example :
+    (removeAbs ssM (simulate ssM { rule := .est, absence := [0], maxTime := 20 } St.fresh)).logs =
+      (simulate ssM { rule := .est, absence := [], maxTime := 20 } St.fresh).logs :=
+  (C10_removal ssM { rule := .est, maxTime := 20 } [0] St.fresh ssM_ok ssM_workOK
+    rfl rfl rfl (by decide +kernel)).1
+
+/-- task `0` automatic with work amount 0 (no component), task `1` ordinary after it
+(finish-to-start); one worker -/
+def zwM : Model where
+  nT := 2
+  nW := 1
+  nF := 0
+  nTeam := 1
+  nWp := 0
+  nC := 0
+  task := fun t =>
+    match t with
+    | 0 => { name := 0, work := 0, isAuto := true, outputs := [(1, .fs)] }
+    | _ => { name := 1, work := 1, inputs := [(0, .fs)] }
+  worker := fun _ => { team := 0, skills := [(1, 1)] }
+  fac := fun _ => {}
+  team := fun _ => { workers := [0], targets := [0, 1] }
+  wp := fun _ => {}
+  comp := fun _ => {}
+
+theorem zwM_cases {t : Nat} (ht : t < zwM.nT) : t = 0 ∨ t = 1 := by
+  simp only [zwM] at ht; omega
+
+theorem zwM_ok (rule : TaskRule) (h : rule ≠ .fifo) : ModelOK zwM rule where
+  noInd := ⟨fun _ _ => rfl, fun _ _ => rfl⟩
+  compNoAuto := fun c t ht => by simp [zwM] at ht
+  wf := by
+    intro t ht
+    rcases zwM_cases ht with rfl | rfl <;> decide +kernel
+  notFifo := h
+  slack := fun _ => by
+    refine ⟨by decide +kernel, by decide +kernel, ⟨id, ?_⟩⟩
+    intro t ht
+    rcases zwM_cases ht with rfl | rfl <;> decide +kernel
+
+theorem zwM_workOK : WorkOK zwM := by
+  intro t ht
+  rcases zwM_cases ht with rfl | rfl <;> decide +kernel
+
+/-- **A zero-work automatic task** (formerly excluded: started at an absence step it would have
+finished one working step early).  With the absence list `[0, 2]` the task waits in READY at the
+absence step 0, is WORKING at step 1, FINISHED at the absence step 2; deleting the two rows gives
+the run without absence. -/
+example :
+    (simulate zwM { absence := [0, 2], maxTime := 20 } St.fresh).status = .success ∧
+    (simulate zwM { absence := [0, 2], maxTime := 20 } St.fresh).logs.tState 0 =
+      [.ready, .working, .finished, .finished] ∧
+    (simulate zwM { absence := [], maxTime := 20 } St.fresh).logs.tState 0 = [.working, .finished] ∧
+    putLogs zwM (removeAbs zwM (simulate zwM { absence := [0, 2], maxTime := 20 } St.fresh)).logs =
+      putLogs zwM (simulate zwM { absence := [], maxTime := 20 } St.fresh).logs ∧
+    (removeAbs zwM (simulate zwM { absence := [0, 2], maxTime := 20 } St.fresh)).time =
+      (simulate zwM { absence := [], maxTime := 20 } St.fresh).time ∧
+    (removeAbs zwM (simulate zwM { absence := [0, 2], maxTime := 20 } St.fresh)).status =
+      (simulate zwM { absence := [], maxTime := 20 } St.fresh).status := by
+  decide +kernel
+
+/-- `C10_removal` applies to it (default rule TSLACK) -/
+example :
+    (removeAbs zwM (simulate zwM { absence := [0, 2], maxTime := 20 } St.fresh)).logs =
+      (simulate zwM { absence := [], maxTime := 20 } St.fresh).logs :=
+  (C10_removal zwM { maxTime := 20 } [0, 2] St.fresh (zwM_ok .tslack (by decide)) zwM_workOK
+    rfl rfl rfl (by decide +kernel)).1
 
 #print axioms PDesy.C10_est_shift
 #print axioms PDesy.C10_slack_shift
@@ -325,8 +387,8 @@ example : ¬ NoStartLink ssM := by
 #print axioms PDesy.C10_rows_dropped
 #print axioms PDesy.C10_working_step
 #print axioms PDesy.C10_absence_step_current
+#print axioms PDesy.C10_absStepOK
 #print axioms PDesy.C10_removal_of_absence_step
-#print axioms PDesy.C10_removal_partial
-#print axioms PDesy.C10_removal_counterexample_ss
+#print axioms PDesy.C10_removal
 
 end PDesy
